@@ -1200,6 +1200,220 @@ func (s *seq) stepConcurrent() {
 
 func anyMap(m map[string]any) any { return m }
 
+// stepGated: a subscription request meets writes that happen while it is being served.
+//
+// qsub: the send function holds the API on the first ok of the query phase (a slow
+// client; the query phase has provably begun). Meanwhile a privileged writer puts a
+// fresh matching record, replaces an existing matching one and writes one that does
+// not match; it returns, the gate opens, the query phase ends with done, the
+// subscription is cancelled. sub: the same writes once the subscription is established.
+//
+// Oracle ("qsub yields the query replies followed by the subscription replies ...
+// notifications for matching changes until cancelled"): every matching write that was
+// called after that first ok had been handed to the send function (sub: after the
+// subscription loop was waiting) and that returned before the cancel was sent must be
+// reflected: its value appears in a later ok of the operation or in an upd/new
+// notification. Never in neither. The write that does not match is never notified.
+func (s *seq) stepGated() {
+	d := s.e.w.pickDB(s.r, func(d *dbInfo) bool { return d.Writable && d.Readable && d.Queries })
+	cmd := "qsub"
+	if s.r.Chance(1, 4) {
+		cmd = "sub"
+	}
+	tag := "gated/" + cmd
+	if !s.allowed(tag) || !s.idle() {
+		return
+	}
+	prefix := fmt.Sprintf("api/b%d/g%d-%d/", s.e.spec.Batch, s.no, len(s.c.ops))
+	mkDoc := func(n, g int) map[string]any {
+		return map[string]any{"n": json.Number(fmt.Sprint(n)), "f": json.Number(fmt.Sprintf("%d.25", n)),
+			"s": fmt.Sprintf("%s-%d", []string{"alpha", "beta", "gamma"}[n%3], n), "b": n%2 == 0, "g": json.Number(fmt.Sprint(g))}
+	}
+	q := genQuery(s.r, d.Name, prefix, true)
+	// documents that match / do not match the where-clause
+	yes, no := -1, -1
+	for n := 0; n < 12; n++ {
+		if q.matches(d.Name, prefix, anyMap(mkDoc(n, 0))) {
+			if yes < 0 || s.r.Chance(1, 3) {
+				yes = n
+			}
+		} else if no < 0 || s.r.Chance(1, 3) {
+			no = n
+		}
+	}
+	if yes < 0 {
+		q = &queryGen{DB: d.Name, Prefix: prefix, Valid: true, Model: true, Class: "prefix", Text: "query " + d.Name + ":" + prefix}
+		yes, no = s.r.Intn(12), -1
+	}
+	// the stored set: enough for the query phase to have something to deliver
+	// (bbolt: a read transaction held open by a blocked iterator can block a writer
+	// that has to grow the file, so the set stays below the iterator's buffer)
+	nrec := s.r.Range(1, 30)
+	if d.Backend == "bbolt" {
+		nrec = s.r.Range(1, 8)
+	}
+	marker := 1000
+	var oldKey string
+	for i := 0; i < nrec; i++ {
+		n := yes
+		if i > 0 && no >= 0 && s.r.Chance(1, 3) {
+			n = no
+		}
+		key := fmt.Sprintf("%s:%sr%03d", d.Name, prefix, i)
+		marker++
+		if err := s.e.w.putWrapper(key, dsd.JSON, mustJSON(mkDoc(n, marker)), nil); err != nil {
+			return
+		}
+		if i == 0 {
+			oldKey = key
+		}
+	}
+	s.note(cmd + "/" + d.Backend)
+	s.e.b.Count("gated_steps", 1)
+	before, ok := s.e.waitIdle()
+	if !ok {
+		s.onStall("handlers to finish", nil)
+		return
+	}
+	id := s.e.newOpID(s.r)
+	var gate *sendGate
+	open := func() {}
+	if cmd == "qsub" {
+		gate, open = s.c.armGate(id)
+	}
+	defer open()
+	op := s.c.request(id, cmd, q.Text, tag, d.Backend)
+	if cmd == "qsub" {
+		// the first ok is in the log and its sender is held, or the request ended
+		held := false
+		reached := s.c.waitCond(func() bool { held = gate.hit; return held || terminalCount(op) >= 1 })
+		if !reached || !held {
+			open()
+			s.idle()
+			s.recordOutcome(op)
+			s.e.b.Count("gated_not_reached", 1)
+			return
+		}
+	} else {
+		if !s.idle() {
+			return
+		}
+		after, _ := s.e.waitIdle()
+		if after != before+1 {
+			s.recordOutcome(op)
+			return
+		}
+		op.Established = true
+		s.e.b.Count("subs_established", 1)
+	}
+	// the writes: fresh matching key, replacement of a stored matching key, a
+	// record that does not match
+	type gw struct {
+		key      string
+		g        int
+		matching bool
+		done     bool
+	}
+	ws := []*gw{{key: fmt.Sprintf("%s:%snew", d.Name, prefix), g: 5001, matching: true}, {key: oldKey, g: 5002, matching: true}}
+	if no >= 0 {
+		ws = append(ws, &gw{key: fmt.Sprintf("%s:%sother", d.Name, prefix), g: 5003})
+	}
+	finished := make(chan struct{})
+	go func() {
+		defer close(finished)
+		for _, w := range ws {
+			n := yes
+			if !w.matching {
+				n = no
+			}
+			if err := s.e.w.putWrapper(w.key, dsd.JSON, mustJSON(mkDoc(n, w.g)), nil); err == nil {
+				w.done = true
+			}
+		}
+	}()
+	// the writer normally returns at once; the limit only keeps the harness from
+	// holding the gate for ever should a backend make writers wait for readers
+	// (writes that have not returned by then simply return with the gate open)
+	select {
+	case <-finished:
+		s.e.b.Count("gated_writes_returned_while_held", 1)
+	case <-time.After(3 * time.Second):
+		s.e.b.Count("gated_writer_waited_for_gate", 1)
+	}
+	open()
+	if !s.idle() { // watches the writer, too
+		return
+	}
+	<-finished
+	if cmd == "qsub" {
+		after, _ := s.e.waitIdle()
+		if after == before+1 {
+			op.Established = true
+			s.e.b.Count("subs_established", 1)
+		}
+	}
+	s.c.cancel(op, "cancel/sub")
+	s.e.b.Seen("cancel_points", "sub:gated")
+	if !s.idle() {
+		return
+	}
+	s.recordOutcome(op)
+	// where did the writes show up
+	rs := s.c.snapshot(op)
+	inOK, inNote := map[string]bool{}, map[string]bool{}
+	firstOK := false
+	for _, r := range rs {
+		switch r.Type {
+		case "ok", "upd", "new":
+			_, data, ok := splitKeyData(r.Rest, "")
+			if !ok || len(data) < 2 {
+				continue
+			}
+			dv, err := decodeDoc(data[1:])
+			if err != nil {
+				continue
+			}
+			m, _ := dv.(map[string]any)
+			g, _ := m["g"].(json.Number)
+			if r.Type == "ok" {
+				if firstOK { // only oks after the one the gate held count as "later"
+					inOK[string(g)] = true
+				}
+				firstOK = true
+			} else {
+				inNote[string(g)] = true
+			}
+		}
+	}
+	terminated := false
+	for _, r := range rs {
+		if r.Type == "error" && !isCancelErr(r.msgText()) {
+			terminated = true // the request was refused or its query failed: no subscription phase
+		}
+	}
+	s.e.b.Count("gated_checks", 1)
+	for _, w := range ws {
+		g := fmt.Sprint(w.g)
+		switch {
+		case !w.done || terminated:
+		case w.matching && !inOK[g] && !inNote[g]:
+			what := "a matching record written while the query phase of the qsub was being delivered (after its first ok had been handed to the send function, before the cancel) appears neither among the later ok replies nor as an upd/new notification"
+			if cmd == "sub" {
+				what = "a matching record written while the subscription was established appears in no upd/new notification"
+			}
+			s.viol(finding{Sig: "C13:sub:missing-notification:" + cmd + ":write-during-request", What: what,
+				Detail: opDetail(op, map[string]any{"query": q.Text, "written_key": w.key, "written_marker_g": w.g, "stored_records": nrec, "gate": cmd == "qsub"})})
+		case !w.matching && inNote[g]:
+			s.viol(finding{Sig: "C13:sub:unexpected-notification:" + cmd, What: "a record that does not match the query was notified",
+				Detail: opDetail(op, map[string]any{"query": q.Text, "written_key": w.key, "written_marker_g": w.g})})
+		case w.matching && inNote[g]:
+			s.e.b.Count("gated_reflected_as_notification", 1)
+		case w.matching:
+			s.e.b.Count("gated_reflected_as_ok", 1)
+		}
+	}
+}
+
 // checkStormDoc: the storm record was created as {"n":1,"s":"alpha-1","b":true,
 // "f":1.25,"ctr":0,"pad":"","storm":true}; inserts only ever replace ctr (a number)
 // and pad (a string of p's). Whatever interleaving, a reader must see such a document.
